@@ -25,7 +25,7 @@ RULES = [
     (r'user-defined exception classes|traceback|__exit__|with statement', 'C02'),
     (r'repr of a 1-tuple|str\.|ord\(\)|strip chars', 'C14'),
     (r'importing a missing module|from m import \*|module whose body raised', 'C19'),
-    (r"leaves '_' alone", 'C20'),
+    (r"leaves '_' alone|white space at the primary prompt", 'C20'),
     (r'generator|yield from|StopIteration|for loop|FOR_ITER|unpack|iterat|enumerate', 'C05'),
     (r'float|round\(|int / int|complex|min.*max|nan|inf', 'C15'),
     (r'decorator|trailing comma|augmented assign|non-keyword arg|bare \*|bytes literal|raw string|try without|starred expression|grammar|parser|parsed', 'C06'),
